@@ -495,10 +495,14 @@ def run(ctx):
                 'Non-trivial = the calendar has at least one holiday (arith: distinct (configuration, day); C2S: distinct query); '
                 'history: at least two registrations and a query by key.')
     q = ctx.quick
-    ctx.mc('MC_Calendar', 'MC_Calendar_quick.cfg' if q else 'MC_Calendar_thorough.cfg', env=JVM)
+    # MC_Calendar has the single action Eval (one step per initial state), so TLC's expression coverage - which doubles
+    # its run time - has nothing to say about vacuity there; that every behaviour took its step is checked on the counts
+    r = ctx.mc('MC_Calendar', 'MC_Calendar_quick.cfg' if q else 'MC_Calendar_thorough.cfg', env=JVM, coverage=False)
+    if r.distinct != r.generated or r.distinct % 2:
+        raise Machinery('MC_Calendar: not every (configuration, day) was evaluated')
     ctx.mc('MC_CalendarReg', 'MC_CalendarReg_quick.cfg' if q else 'MC_CalendarReg_thorough.cfg', env=JVM)
     if not q:
-        ctx.mc('MC_Calendar', 'MC_Calendar_thorough2.cfg', env=JVM)
+        ctx.mc('MC_Calendar', 'MC_Calendar_thorough2.cfg', env=JVM, coverage=False)
         ctx.mc('MC_CalendarReg', 'MC_CalendarReg_thorough2.cfg', env=JVM)
     s2c_arith(ctx, ctx.generate('MC_Calendar', 'MC_Calendar_gen_quick.cfg' if q else 'MC_Calendar_gen_thorough.cfg',
                                 env={'C05_SEED': ctx.seed % 1000, **JVM}))
